@@ -5,8 +5,9 @@
   * `CVal`  — a YAML / Python value tree (what `yaml.safe_load` hands to `KSKMConfig.from_dict`, and
               also the canonical form of what the loader returns);
   * `Scalar`, `STy`, `Field`, `ObjSchema` — the JSON-schema subset pydantic emits for the
-              configuration models (`model_json_schema()`), plus the three things the JSON schema
-              does not say (strict models, int-keyed mappings, `mode="before"` field validators).
+              configuration models (`model_json_schema()`), plus the things the JSON schema
+              does not say (strict models, int-keyed mappings, `mode="before"` and `mode="after"`
+              field validators).
 
   Kept apart from Config.lean so that the generated tables can import it without a cycle.
 -/
@@ -99,6 +100,11 @@ structure Field where
   default : Option CVal := none
   /-- the `turn_into_list` before-validator applies: a bare string becomes a one-element list -/
   strToList : Bool := false
+  /-- the `validity_without_timezone_is_utc` after-validator applies: a validated `datetime` without
+      time zone is loaded as the same wall-clock time in UTC (`ts us none` ↦ `ts us (some 0)`: `us`
+      already reads a naive value as if UTC); aware values and `None` are left as they are.
+      The table generator sets the flag only after PROBING the validator function by execution. -/
+  naiveIsUtc : Bool := false
   deriving Repr, Inhabited
 
 structure ObjSchema where
@@ -128,5 +134,11 @@ def schemaFieldTy (tbl : List ObjSchema) (model field : String) : Option STy := 
   let s ← findSchema tbl model
   let f ← s.field? field
   pure f.ty
+
+/-- the field validators of `model.field` according to a schema table: (`strToList`, `naiveIsUtc`) -/
+def schemaFieldValidators (tbl : List ObjSchema) (model field : String) : Option (Bool × Bool) := do
+  let s ← findSchema tbl model
+  let f ← s.field? field
+  pure (f.strToList, f.naiveIsUtc)
 
 end Kskm
